@@ -38,6 +38,8 @@ pub struct Rt {
     pub watchers: Vec<Box<dyn FnMut(Vec<PathBuf>, bool)>>,
     pub watched: Vec<(usize, PathBuf)>,
     pub ctrlc: bool,
+    /// kind of the file-system events delivered by the following `notify` steps (see the notify model)
+    pub event_kind: u8,
     pub progress: u64,
     pub log: Option<std::fs::File>,
     pub cap_override: usize,
@@ -64,6 +66,7 @@ pub fn rt() -> &'static mut Rt {
                 watchers: Vec::new(),
                 watched: Vec::new(),
                 ctrlc: false,
+                event_kind: 0,
                 progress: 0,
                 log,
                 cap_override: std::env::var("ZX_CAP").ok().and_then(|v| v.parse().ok()).unwrap_or(0),
@@ -231,6 +234,7 @@ enum Step {
     NotifyAll(Vec<PathBuf>),
     Crash(i32),
     Drain,
+    EventKind(u8),
     Write(PathBuf, String),
     Remove(PathBuf),
 }
@@ -273,6 +277,7 @@ fn parse_schedule() -> Vec<Step> {
             "notifyall" => out.push(Step::NotifyAll((1..w.len()).map(|i| path_at(i)).collect())),
             "crash" => out.push(Step::Crash(w.get(1).map(|x| x.parse().unwrap()).unwrap_or(77))),
             "drain" => out.push(Step::Drain),
+            "eventkind" => out.push(Step::EventKind(w[1].parse().unwrap())),
             "write" => out.push(Step::Write(path_at(1), w[2..].join(" "))),
             "remove" => out.push(Step::Remove(path_at(1))),
             "cap" => rt().cap_override = w[1].parse().unwrap(),
@@ -433,6 +438,10 @@ pub fn block_on<F: Future>(future: F) -> F::Output {
                         rt().watchers[wi] = h;
                     }
                 }
+            }
+            Step::EventKind(k) => {
+                rt().event_kind = k;
+                log(&format!("eventkind {}", k));
             }
             Step::Crash(code) => {
                 log("crash");
